@@ -103,6 +103,44 @@ fn ack_bytes(digest: [u8; 16], class: &str) -> Vec<u8> {
     b
 }
 
+fn shape(mut b: Vec<u8>, spec: &Value) -> Vec<u8> {
+    if let Some(t) = spec["tag"].as_u64() {
+        if !b.is_empty() {
+            b[0] = t as u8;
+        }
+    }
+    b.extend(std::iter::repeat(7u8).take(spec["extra"].as_u64().unwrap_or(0) as usize));
+    let cut = spec["cut"].as_i64().unwrap_or(-1);
+    if cut >= 0 {
+        b.truncate(cut as usize);
+    }
+    b
+}
+
+/// a member of Handshake!ChallengeFamily around the parameter set
+fn family_challenge(p: &Params, spec: &Value) -> Vec<u8> {
+    let name: Vec<u8> = spec["name"].as_array().map(|a| a.iter().map(|x| x.as_u64().unwrap_or(0) as u8).collect()).unwrap_or_default();
+    let nlen = spec["nlen"].as_i64().unwrap_or(-1);
+    shape(challenge_msg(p, &name, if nlen < 0 { name.len() as u16 } else { nlen as u16 }), spec)
+}
+
+/// a member of Handshake!AckFamily for the challenge this side revealed
+fn family_ack(p: &Params, our_challenge: u32, spec: &Value) -> Vec<u8> {
+    let cookie = p.cookie.as_bytes();
+    let mut d = handshake_digest(cookie, our_challenge);
+    match spec["digest"].as_str().unwrap_or("right") {
+        "wrong" => d = handshake_digest(b"not the cookie", our_challenge),
+        "flip_first_bit" => d[0] ^= 0x80,
+        "flip_last_bit" => d[15] ^= 1,
+        "zeros" => d = [0; 16],
+        "own_challenge" => d = handshake_digest(cookie, p.peer_challenge),
+        _ => {}
+    }
+    let mut b = vec![b'a'];
+    b.extend_from_slice(&d);
+    shape(b, spec)
+}
+
 pub struct Hs {
     m: HandshakeStateMachine,
     p: Params,
@@ -136,9 +174,10 @@ impl Replayable for Hs {
                 Ok(b) => (true, Some(b)),
                 Err(_) => (false, None),
             },
-            "handle_status" => (self.m.handle_status(&status_bytes(class)).is_ok(), None),
+            "handle_status" => (self.m.handle_status(&act["raw"].as_array().map(|a| a.iter().map(|x| x.as_u64().unwrap_or(0) as u8).collect::<Vec<u8>>()).unwrap_or_else(|| status_bytes(class))).is_ok(), None),
             "handle_challenge" => {
-                let ok = self.m.handle_challenge(&challenge_bytes(&self.p, class)).is_ok();
+                let bytes = if act["spec"].is_object() { family_challenge(&self.p, &act["spec"]) } else { challenge_bytes(&self.p, class) };
+                let ok = self.m.handle_challenge(&bytes).is_ok();
                 if ok {
                     if let Some(c) = self.cur.take() {
                         self.stale.push(c);
@@ -162,7 +201,8 @@ impl Replayable for Hs {
                     "stale" => handshake_digest(cookie, *self.stale.last().unwrap_or(&0)),
                     _ => handshake_digest(b"not the cookie", self.cur.unwrap_or(0)),
                 };
-                (self.m.handle_challenge_ack(&ack_bytes(digest, class)).is_ok(), None)
+                let bytes = if act["spec"].is_object() { family_ack(&self.p, self.cur.unwrap_or(0), &act["spec"]) } else { ack_bytes(digest, class) };
+                (self.m.handle_challenge_ack(&bytes).is_ok(), None)
             }
             "disconnect" => {
                 self.m.disconnect();
@@ -204,6 +244,48 @@ pub fn run_paths(args: &[String]) -> i32 {
     quiet_panics();
     let cfg: Value = serde_json::from_str(&args[2]).expect("params");
     crate::edges::replay_paths::<Hs>(&args[0], &args[1], &cfg, args[3].parse().expect("depth"))
+}
+
+pub fn run_family(args: &[String]) -> i32 {
+    // hs-family <families.ndjson> <params.ndjson> <out.ndjson>: every member of a message class against the class's representative
+    crate::io::quiet_panics();
+    let fam = crate::io::read_ndjson(&args[0]);
+    let params = crate::io::read_ndjson(&args[1]);
+    let mut w = crate::io::NdWriter::create(&args[2]);
+    let act = |name: &str, class: &str| json!({"name": name, "class": class});
+    for (pi, p) in params.iter().enumerate() {
+        for (fi, f) in fam.iter().enumerate() {
+            let msg = f["msg"].as_str().unwrap_or("");
+            let class = f["class"].as_str().unwrap_or("");
+            let mut run = |member: bool| -> Value {
+                let mut h = Hs::fresh(p);
+                let mut pre = vec![act("begin_connect", ""), act("prepare_send_name", "")];
+                if msg != "status" {
+                    pre.push(act("handle_status", "ok"));
+                }
+                if msg == "ack" {
+                    pre.push(act("handle_challenge", "good"));
+                    pre.push(act("prepare_challenge_reply", ""));
+                }
+                for a in &pre {
+                    h.apply(a);
+                }
+                let a = match (msg, member) {
+                    ("status", true) => json!({"name": "handle_status", "class": class, "raw": f["bytes"]}),
+                    ("status", false) => act("handle_status", class),
+                    ("challenge", true) => json!({"name": "handle_challenge", "class": class, "spec": f}),
+                    ("challenge", false) => act("handle_challenge", if class == "truncated" { "truncated_flags" } else { class }),
+                    (_, true) => json!({"name": "handle_challenge_ack", "class": class, "spec": f}),
+                    (_, false) => act("handle_challenge_ack", class),
+                };
+                Hs::stable(&h.apply(&a))
+            };
+            let (m, r) = (run(true), run(false));
+            w.put(&json!({"param": pi, "i": fi, "member": m, "representative": r}));
+        }
+    }
+    w.finish();
+    0
 }
 
 pub fn run_edges(args: &[String]) -> i32 {
